@@ -194,8 +194,9 @@ func checkState(v *View, readded map[int]bool, book map[int]*stakeBook) []violat
 // transition checks for one executed operation (class 0 = accepted).  joined[a]: the height at which the
 // monitor saw oracle a come online last (bond, or add-delegate of an offline oracle) — its own notion of
 // "joined", not the StartHeight field of the record.  redelegated[a]: a re-delegation of a was accepted earlier in
-// this history (then staking may legitimately refuse the next one: transitive redelegation).
-func checkStep(op Op, class int, pre, post *View, joined map[int]int64, redelegated map[int]bool) []violation {
+// this history (then staking may legitimately refuse the next one: transitive redelegation).  confirmed: the monitor's
+// OWN record of the confirms it saw accepted (object kind, nonce, external id) — not what the store says now.
+func checkStep(op Op, class int, pre, post *View, joined map[int]int64, redelegated map[int]bool, confirmed func(kind string, nonce int64, ext int) bool) []violation {
 	var out []violation
 	fail := func(sig, f string, a ...interface{}) { out = append(out, violation{sig, fmt.Sprintf(f, a...)}) }
 	sub := func(x, y *big.Int) *big.Int { return new(big.Int).Sub(x, y) }
@@ -302,6 +303,18 @@ func checkStep(op Op, class int, pre, post *View, joined map[int]int64, redelega
 				}
 			}
 		}
+	case "exportimport":
+		// a chain restart from exported state must give back the registry exactly: records and both indexes
+		if class == 0 {
+			same := len(pre.Recs) == len(post.Recs) && coqPairs(pre.ByB) == coqPairs(post.ByB) && coqPairs(pre.ByE) == coqPairs(post.ByE)
+			for i := 0; same && i < len(pre.Recs); i++ {
+				same = coqRec(pre.Recs[i]) == coqRec(post.Recs[i])
+			}
+			if !same {
+				fail("C13:export:registry-changed", "genesis export + import changed the oracle registry: %d records / %d bridger / %d external index entries before, %d / %d / %d after",
+					len(pre.Recs), len(pre.ByB), len(pre.ByE), len(post.Recs), len(post.ByB), len(post.ByE))
+			}
+		}
 	case "redel":
 		// a first re-delegation of an online oracle with a delegation, to another existing validator, has no reason to fail
 		if r0 := pre.rec(op.A); class != 0 && r0 != nil && r0.Online && r0.V != op.V && r0.V >= 0 && r0.V <= 2 && op.V >= 0 && op.V <= 2 &&
@@ -369,9 +382,9 @@ func checkStep(op Op, class int, pre, post *View, joined map[int]int64, redelega
 		if !seen {
 			start = r0.Start
 		}
-		for _, objs := range [][]objView{pre.Sets, pre.Batches, pre.Calls} {
+		for kind, objs := range map[string][]objView{"set": pre.Sets, "batch": pre.Batches, "call": pre.Calls} {
 			for _, x := range objs {
-				if start <= x.H && !hasInt(x.Conf, r0.E) && pre.Height-x.H >= pre.Window {
+				if start <= x.H && !confirmed(kind, x.N, r0.E) && pre.Height-x.H >= pre.Window {
 					justified = true
 				}
 			}
